@@ -170,7 +170,12 @@ class Contract(object):
 
     # -- the function under contract
     def funcref(self):
-        return self.world.function(self.target)
+        try:
+            return self.world.function(self.target)
+        except KeyError as ex:
+            # the function the contract names is no longer a `def` at that place (renamed, generated by a factory, moved): there is no body
+            # to generate obligations from - that is undecided, for the bounded stand-ins, not a fault of the checker
+            raise OutOfReach('%s: no def statement for it in the working tree' % (ex.args[0] if ex.args else self.target))
 
     def param_names(self, fn):
         a = fn.node.args
